@@ -142,6 +142,15 @@ FIXED_VALUE_CASES = [
     {"quote": "r", "segs": [["lit", "raw\\n"], ["emb", "n", "int"], ["dd"], ["lit", "\""], ["emb", "s + \"x\"", "string"]]},
     {"quote": "d", "segs": [["emb", "g", "float"], ["emb", "m", "int"]]},
 ]
+# a lone `$x` next to a real $-form: the parser reports an error (stringLitEx "neither `${ ... }` nor `$$`"); if such a
+# literal ever compiles, its `$$` must still read as `$`  (segment kind "raw" = text with a lone dollar)
+LONE_CASES = [
+    {"quote": "d", "segs": [["raw", "$z"], ["dd"]], "lone": True},
+    {"quote": "d", "segs": [["dd"], ["raw", "$z"]], "lone": True},
+    {"quote": "d", "segs": [["raw", "a$z"], ["emb", "n", "int"]], "lone": True},
+    {"quote": "d", "segs": [["raw", "$z"]]},            # a lone `$x` alone is plain text
+    {"quote": "d", "segs": [["raw", "$z$y"], ["tail$"]]},
+]
 # the deterministic known-finding set (seed independent)
 FINDING_CASES = [
     ({"quote": "d", "segs": [["emb", "b", "bool"]]}, "bool-operand"),
@@ -154,7 +163,7 @@ FINDING_CASES = [
 def literal_of(c):
     out = ""
     for s in c["segs"]:
-        out += {"lit": lambda: s[1], "dd": lambda: "$$", "emb": lambda: "${" + s[1] + "}", "tail$": lambda: "$"}[s[0]]()
+        out += {"lit": lambda: s[1], "raw": lambda: s[1], "dd": lambda: "$$", "emb": lambda: "${" + s[1] + "}", "tail$": lambda: "$"}[s[0]]()
     return out
 
 
@@ -230,7 +239,7 @@ def run(ctx):
     os.makedirs(d)
     open(os.path.join(d, "go.mod"), "w").write(gomod(vlib.REPO))
     shutil.copy(os.path.join(vlib.REPO, "go.sum"), os.path.join(d, "go.sum"))
-    vcases = [dict(c) for c in FIXED_VALUE_CASES] + [dict(c) for c, _ in FINDING_CASES]
+    vcases = [dict(c) for c in FIXED_VALUE_CASES] + [dict(c) for c, _ in FINDING_CASES] + [dict(c) for c in LONE_CASES]
     nfixed = len(vcases)
     for i in range(ctx.n(150, 3000)):
         vcases.append(gen_value_case(ctx.rng, "d" if i % 4 else "r"))
@@ -240,7 +249,7 @@ def run(ctx):
         ctx.broken("correspondence(c05: compile the value program with the real compiler)", out[-1500:])
         return
     status = json.load(open(os.path.join(d, "status.json")))["status"]
-    rc, out = ctx.run(["go", "build", "-o", "prog", "."], cwd=d, timeout=300)
+    rc, out = ctx.run("go build -o prog . 2>&1", cwd=d, timeout=300)
     if rc != 0:
         ctx.broken("correspondence(c05: go build of the compiled value program)", out[-1500:])
         return
@@ -265,10 +274,14 @@ def run(ctx):
     thist = {}
     for k, c in enumerate(vcases):
         lit = literal_of(c)
-        fk = FINDING_CASES[k - len(FIXED_VALUE_CASES)][1] if len(FIXED_VALUE_CASES) <= k < nfixed else None
+        fk = FINDING_CASES[k - len(FIXED_VALUE_CASES)][1] if len(FIXED_VALUE_CASES) <= k < len(FIXED_VALUE_CASES) + len(FINDING_CASES) else None
         for s in c["segs"]:
             kk = s[0] if s[0] != "emb" else "emb:" + s[2]
             thist[kk] = thist.get(kk, 0) + 1
+        if status[k] != "ok" and c.get("lone"):
+            impl_v.append("COMPILE-ERROR")
+            model_v.append("COMPILE-ERROR" if mres[k] == "ERROR" else mres[k])
+            continue
         if status[k] != "ok":
             # the property gives the literal a value; the compiler rejects it
             key = "value:" + (fk or vlib.sha(c["quote"] + lit))
@@ -293,7 +306,7 @@ def run(ctx):
     distinct = len(set(m for m in mlines))
     ctx.cover(evaluations=len(vcases), distinct_nontrivial=len(set(l for l, c in zip(mlines, vcases) if any(s[0] in ("emb", "dd") for s in c["segs"]))),
               samples=[{"case": vcases[i], "impl": impl_v[i], "model": model_v[i]} for i in (0, 1, nfixed + 3, len(vcases) - 1)],
-              rule="values: %d fixed + %d known-finding + %d seeded literals (1-6 segments from text incl. escapes, $$, ${e} over int/string/float/error "
+              rule="values: %d fixed + %d known-finding + 5 lone-dollar + %d seeded literals (1-6 segments from text incl. escapes, $$, ${e} over int/string/float/error "
                    "operands with probe calls, optional trailing $; every 4th raw-quoted) in ONE compiled program, each next to its explicit "
                    "concatenation; distinct literals %d; non-trivial = has a $$ or ${} segment; bool operands and '\"' inside ${} only in the "
                    "deterministic known-finding set" % (len(FIXED_VALUE_CASES), len(FINDING_CASES), len(vcases) - nfixed, distinct),
